@@ -319,15 +319,20 @@ Proof.
   intros a e. unfold qn. rewrite N2Z.inj_pow. apply Zpower_Qpower. lia.
 Qed.
 
+Lemma qpow_m1_even : forall k, (Qpower (-1) (Z.of_N (2 * k)) == 1)%Q.
+Proof.
+  intro k. rewrite N2Z.inj_mul, Qpower_mult.
+  change (Qpower (-1) (Z.of_N 2)) with 1%Q. apply Qpower_1.
+Qed.
+
 Lemma qpow_m1 : forall e, (Qpower (-1) (Z.of_N e) == if e mod 2 =? 0 then 1 else -1)%Q.
 Proof.
-  intro e. induction e as [|e IH] using N.peano_ind.
-  - reflexivity.
-  - rewrite N2Z.inj_succ, <- Z.add_1_r, Qpower_plus by discriminate. rewrite IH.
-    assert (H2 : 2 <> 0) by lia.
-    pose proof (N.mod_lt e 2 H2). pose proof (N.mod_lt (N.succ e) 2 H2).
-    pose proof (N.div_mod e 2 H2). pose proof (N.div_mod (N.succ e) 2 H2).
-    destruct (N.eqb_spec (e mod 2) 0), (N.eqb_spec (N.succ e mod 2) 0); try (compute; reflexivity); exfalso; clear IH; lia.
+  intro e. destruct (N.Even_or_Odd e) as [[k Hk]|[k Hk]]; subst e.
+  - rewrite (N.mul_comm 2 k), N.mod_mul by lia. rewrite N.mul_comm. apply qpow_m1_even.
+  - rewrite N.add_comm, (N.mul_comm 2 k), N.mod_add by lia.
+    change (1 mod 2 =? 0) with false. cbv iota.
+    rewrite N2Z.inj_add, Qpower_plus by discriminate.
+    rewrite N.mul_comm, qpow_m1_even. reflexivity.
 Qed.
 
 Lemma sq_pow : forall s e, (Qpower (sq s) (Z.of_N e) ==
@@ -355,10 +360,10 @@ Proof.
     unfold qn in E1. destruct (rsign y); cbn [sq] in E1.
     - assert (E2 : (inject_Z (- Z.of_N (val (rnum y))) == inject_Z (z * Z.of_N (val (rden y))))%Q).
       { rewrite inject_Z_opp, inject_Z_mult. rewrite <- E1. ring. }
-      apply inject_Z_injective in E2. nia.
+      rewrite inject_Z_injective in E2. destruct (Z.abs_spec z) as [[? ->]|[? ->]]; nia.
     - assert (E2 : (inject_Z (Z.of_N (val (rnum y))) == inject_Z (z * Z.of_N (val (rden y))))%Q).
       { rewrite inject_Z_mult. rewrite <- E1. ring. }
-      apply inject_Z_injective in E2. nia. }
+      rewrite inject_Z_injective in E2. destruct (Z.abs_spec z) as [[? ->]|[? ->]]; nia. }
   assert (Hn : val (rnum y) = Z.to_N (Z.abs z) * val (rden y)) by lia.
   assert (Hg : N.gcd (val (rnum y)) (val (rden y)) = val (rden y)).
   { rewrite Hn. rewrite N.gcd_comm. apply N.divide_gcd_iff'. apply N.divide_factor_r. }
